@@ -215,3 +215,16 @@ pub fn run(tier: &str, seed: u64, s: &mut Sink) {
         emit_whole(s, "random", &b);
     }
 }
+
+/// implementation observation for a case line of this module (None: not one of mine)
+pub fn observe_line(line: &str) -> Option<String> {
+    let (tag, rest) = line.split_once(' ').unwrap_or((line, "-"));
+    match tag {
+        "cb" => Some(observe_whole(&crate::util::unhex(rest))),
+        "cbfeed" => {
+            let pieces: Vec<Vec<u8>> = rest.split(',').map(crate::util::unhex).collect();
+            Some(observe_feed(&pieces))
+        }
+        _ => None,
+    }
+}
